@@ -15,6 +15,7 @@ from fractions import Fraction
 import itertools
 import numpy as np
 from .oracle import pauli as P
+from . import core, adapt
 
 
 class SymbolicBranch(Exception):
@@ -357,3 +358,166 @@ def symbolic_or_withdraw(symbolic_fn, concrete_fn):
     except Exception as e2:
         return False, [f"fitter raised {type(e2).__name__}: {e2} on dense concrete counts (and {why} on symbolic counts)"]
     return None, [f"the code does not treat counts as opaque numbers ({why}); the all-distributions argument by symbolic counts is withdrawn"]
+
+
+# ---------------------------------------------------------------------------------------------------------------------------------
+# Representation of the PREPARATION circuit (round 6): the tomography / stabilizer-measurement APIs take an arbitrary preparation circuit.  The main families call them
+# with an empty QuantumCircuit(N); the contract below is relational and closes the gap: for every representation of a preparation circuit (gates, user metadata,
+# metadata None, a circuit that DESCENDS from an earlier library measurement / tomography circuit and therefore carries that circuit's metadata),
+#   (a) the produced circuit is  prep ; R ; measure  where R is exactly the readout part produced for the empty preparation circuit,
+#   (b) the readout information the fitter decodes with (metadata) names that same R, the same measured qubits and register size, and
+#   (c) the fitter's expectation values on the same result object are identical to those of the empty-preparation circuits
+# - i.e. fitter output is a function of (counts, readout part, measured qubits) and never of the preparation circuit's representation.  With the main families
+# (value contract for the empty preparation circuit, all outcome distributions) this gives the value contract for these preparation circuits.
+def _ro_info(c):
+    md = c.metadata or {}
+    ri = md.get("readout info")
+    if ri is None:
+        return None
+    q = getattr(ri, "qubits", None)
+    return (adapt.gates_of(ri.circuit), None if q is None else tuple(int(x) for x in q), int(ri.total_num_qubits))
+
+
+def _same_values(a, b):
+    if set(a) != set(b):
+        return False
+    for k in a:
+        x, y = a[k], b[k]
+        try:
+            if abs(complex(x) - complex(y)) > 1e-12:
+                return False
+        except Exception:
+            if x != y:
+                return False
+    return True
+
+
+def prep_variant_job(args):
+    """[(family suffix, ok, key, what, replay)] for one (pid, n, conn, seed, measured?)"""
+    pid, n, conn, seed, with_list = args
+    import random
+    from qiskit import QuantumCircuit
+    import htstabilizer.tomography as T
+    from .oracle import graphs as G, pauli as Pm
+    from . import e2e
+    rnd = random.Random(seed)
+    N = n + 1 if with_list else n
+    ql = None
+    if with_list:
+        ql = list(range(N))
+        rnd.shuffle(ql)
+        ql = ql[:n]
+
+    def member():
+        orb = rnd.randrange(len(G.orbit_table(n)[1]))
+        gid = G.orbit_table(n)[1][orb]
+        rows = [(x, z) for x, z, _ in G.graph_state_gens(n, G.adj_from_id(n, gid))]
+        rows = G.apply_layer_unsigned(n, rows, [rnd.randrange(6) for _ in range(n)])
+        return e2e.mk_stabilizer(n, [(x, z, rnd.randrange(2)) for x, z in rows])
+    stA, stB = member(), member()
+
+    def gates(N_):
+        qc = QuantumCircuit(N_)
+        qc.h(0)
+        qc.cx(0, N_ - 1)
+        qc.s(N_ - 1)
+        return qc
+    kw = {} if ql is None else {"measured_qubits": list(ql)}
+    variants = []
+    variants.append(("gates", gates(N)))
+    v = gates(N)
+    v.metadata = {"experiment": "x", "shots": 5}
+    variants.append(("user metadata", v))
+    v = gates(N)
+    try:
+        v.metadata = None
+        variants.append(("metadata None", v))
+    except Exception:
+        pass
+    anc = T.stabilizer_measurement_circuit(gates(N), stA, conn, **kw)
+    variants.append(("descends from a stabilizer-measurement circuit (remove_final_measurements)", anc.remove_final_measurements(inplace=False)))
+    anc2 = T.full_state_tomography_circuits(gates(N), conn, **kw)
+    variants.append(("descends from tomography circuit 1 (remove_final_measurements)", anc2[1].remove_final_measurements(inplace=False)))
+    variants.append(("descends from the last tomography circuit (copy, measurements kept off)", anc2[-1].remove_final_measurements(inplace=False).copy()))
+    out = []
+    base_smc = T.stabilizer_measurement_circuit(QuantumCircuit(N), stB, conn, **kw)
+    base_tom = T.full_state_tomography_circuits(QuantumCircuit(N), conn, **kw)
+    size = 1 << N
+    cnt1 = {key_of(rnd.randrange(size), N): 700, key_of(rnd.randrange(size), N): 300}
+    cntT = [{key_of(rnd.randrange(size), N): 3, key_of((5 * j + 1) % size, N): 1} for j in range(len(base_tom))]
+    for c in cntT + [cnt1]:
+        for k in list(c):
+            c[k] = c[k]
+    full = bool(with_list and seed % 2)
+    fkw = {"full_hilbert_space": True} if full else {}
+
+    def fit_smc(c):
+        return T.StabilizerMeasurementFitter(FakeResult(dict(cnt1)), c).expectation_values(**fkw)
+
+    def fit_tom(cs):
+        return T.FullStateTomographyFitter(FakeResult([dict(x) for x in cntT]), cs).expectation_values(**fkw)
+    want_smc, want_tom = fit_smc(base_smc), fit_tom(base_tom)
+    nz = lambda c: [g for g in adapt.gates_of(c) if g[0] not in Pm.IGNORED]
+    for tag, prep in variants:
+        rp = {"n": n, "connectivity": conn, "seed": seed, "measured_qubits": ql, "variant": tag, "job": [pid, n, conn, seed, with_list]}
+        pg = nz(prep)
+        if pid in ("C11", "C12"):
+            try:
+                c = T.stabilizer_measurement_circuit(prep, stB, conn, **kw)
+                ok_a = nz(c) == pg + nz(base_smc)
+                ok_b = _ro_info(c) == _ro_info(base_smc)
+                ok_c = _same_values(fit_smc(c), want_smc)
+                why = f"assembly={ok_a} readout-info={ok_b} fitter-values={ok_c}"
+            except Exception as e:
+                ok_a = ok_b = ok_c = False
+                why = f"raised {type(e).__name__}: {e}"
+            out.append((f"{pid}.prep_representation.stabilizer_measurement", ok_a and ok_b and ok_c, f"prepvar:smc:{n}:{conn}:{with_list}:{tag}",
+                        f"stabilizer measurement on {n}-{conn} (measured qubits {ql}) with a preparation circuit that {tag}: {why} - not the circuit / readout info / values obtained "
+                        "for the same stabilizer with an empty preparation circuit", rp))
+        if pid in ("C10", "C11"):
+            try:
+                cs = T.full_state_tomography_circuits(prep, conn, **kw)
+                ok_a = len(cs) == len(base_tom) and all(nz(c) == pg + nz(b) for c, b in zip(cs, base_tom))
+                ok_b = [_ro_info(c) for c in cs] == [_ro_info(b) for b in base_tom]
+                ok_c = _same_values(fit_tom(cs), want_tom)
+                why = f"assembly={ok_a} readout-info={ok_b} fitter-values={ok_c}"
+            except Exception as e:
+                ok_a = ok_b = ok_c = False
+                why = f"raised {type(e).__name__}: {e}"
+            out.append((f"{pid}.prep_representation.full_tomography", ok_a and ok_b and ok_c, f"prepvar:tom:{n}:{conn}:{with_list}:{tag}",
+                        f"full-state tomography on {n}-{conn} (measured qubits {ql}) with a preparation circuit that {tag}: {why} - not the circuits / readout info / values obtained "
+                        "with an empty preparation circuit", rp))
+    return out
+
+
+def prep_variants(ctx, pid, with_lists):
+    """books the prep_representation families into ctx; with_lists: also with measured_qubits on an (n+1)-qubit register"""
+    import random
+    from .oracle import docs
+    rnd = random.Random(ctx.seed + 77)
+    jobs = []
+    for n, conn in docs.ADVERTISED:
+        if n == 6 and ctx.quick and conn not in ("all", "linear", "ladder"):
+            continue
+        if n == 6 and pid == "C10" and ctx.quick:
+            continue
+        for wl in ((False, True) if with_lists else (False,)):
+            if wl and n == 6 and ctx.quick:
+                continue
+            jobs.append((pid, n, conn, rnd.randrange(1 << 30), wl))
+    for res in core.pmap(prep_variant_job, jobs, chunks=1):
+        for famname, ok, key, what, rp in res:
+            fam = ctx.family(famname, core.BOUNDED, "native (relational)", "circuit, readout info and fitter values do not depend on the representation of the preparation circuit: "
+                             "gates, user metadata, metadata None, circuits descending from earlier library measurement / tomography circuits")
+            fam.exhaustive = False
+            fam.domain = "advertised configurations (6-qubit ones reduced in the quick tier) x six preparation-circuit representations; one seeded stabilizer / result each"
+            ctx.record(fam, core.PROVED if ok else core.REFUTED, rp if fam.total < 2 else None)
+            if not ok:
+                ctx.violate(fam, key, what, rp)
+
+
+def replay_prep_variant(inp):
+    bad = [r for r in prep_variant_job(tuple(inp["job"])) if not r[1] and inp["variant"] in r[2]]
+    for r in bad:
+        print("REPRODUCED:", r[3])
+    return 1 if bad else 0
